@@ -236,8 +236,13 @@ theorem C16_get (s : St) (requireACK : Bool) :
 /-- FromWireFormat by length.  Fewer than 32 bytes: io.ErrUnexpectedEOF.  Otherwise success, and
 the receiver's memory image is the buffer's first 44 bytes followed by zeros up to 44 — so byte
 `i` of the struct is `buf[i]` for `i < min(len, 44)` and 0 beyond, whatever the receiver held
-before; decoded at the kernel's offsets, each field is the little-endian word of that image. -/
-theorem C16_from_wire (recv : Status) (buf : Bytes) :
+before; decoded at the kernel's offsets, each field is the little-endian word of that image.
+
+PARTIAL: the property's clause "never reads outside the buffer" is not part of this theorem.  In the
+Go code it is the semantics of the builtin `copy` (never more than `len(src)` bytes), which `copyInto`
+models by taking a prefix of the source list; the monitor checks it on the real code by decoding
+buffers that sit inside a sentinel-filled arena. -/
+theorem C16_from_wire_partial (recv : Status) (buf : Bytes) :
     (buf.length < Uapi.sizeofAuditStatus_2_6_32 → fromWire recv buf = none) ∧
     (Uapi.sizeofAuditStatus_2_6_32 ≤ buf.length →
       ∃ st, fromWire recv buf = some st ∧
